@@ -154,6 +154,7 @@ Definition is_ref_field (u : ufield) : bool :=
   | KMap i => is_ref_item i
   | KInlineObject fs => existsb (fun s => is_ref_item (sf_kind s)) fs
   | KInlineOneof fs => existsb (fun s => is_ref_item (sf_kind s)) fs
+  | KInlineTree _ _ => true      (* conservatively: a tree may hold references at any depth *)
   | _ => false
   end.
 Lemma item_scalar_resolves : forall D i, is_ref_item i = false -> ref_resolves D (otype_of_item i) = true.
@@ -164,13 +165,19 @@ Proof.
   induction fs as [|s fs IH]; intros H; [reflexivity|]. cbn in H. apply orb_false_iff in H. destruct H as [H1 H2].
   cbn [forallb]. now rewrite (item_scalar_resolves D _ H1), IH.
 Qed.
+Lemma inline_type_resolves : forall D c n k, ref_resolves D (inline_type c n k) = true.
+Proof. intros D c n k. unfold inline_type. destruct (c =? 2); reflexivity. Qed.
 Lemma resolves_ufield_scalar : forall D u, is_ref_field u = false -> resolves D (of_ufield u) = true.
 Proof.
-  intros D [n [pt k|nm|nm|nm|p f t|tn k|i|i|fs|fs|os] r o] H; try reflexivity; try discriminate.
+  intros D [n [pt k|nm|nm|nm|p f t|tn k|i|i|fs|fs|os|tk tfs] r o d kf c] H; try reflexivity; try discriminate.
   - unfold resolves, field_resolves. cbn. rewrite andb_true_r. now apply item_scalar_resolves.
   - unfold resolves, field_resolves. cbn. rewrite andb_true_r. now apply item_scalar_resolves.
-  - unfold resolves, field_resolves. cbn. now apply sfields_scalar_resolve.
-  - unfold resolves, field_resolves. cbn. now apply sfields_scalar_resolve.
+  - unfold resolves, field_resolves. cbn [of_ufield uf_kind uf_name uf_container f_type f_inline il_fields].
+    rewrite inline_type_resolves. now apply sfields_scalar_resolve.
+  - unfold resolves, field_resolves. cbn [of_ufield uf_kind uf_name uf_container f_type f_inline il_fields].
+    rewrite inline_type_resolves. now apply sfields_scalar_resolve.
+  - unfold resolves, field_resolves. cbn [of_ufield uf_kind uf_name uf_container f_type f_inline il_fields].
+    rewrite inline_type_resolves. reflexivity.
 Qed.
 
 (* what the user's own object references must name for the file to convert *)
@@ -474,18 +481,19 @@ Qed.
 Theorem compile_expand : forall e,
   list_settings e = false ->
   (forall fl, user_refs_ok e (defined (expand_with e fl)) = true) ->
+  (forall fl, trees_ok e (defined (expand_with e fl)) = true) ->
   fields_ok e = true -> query_params_ok e = true -> command_params_ok e = true -> convert e = expand e.
 Proof.
-  intros e Hls HU Hok Hq Hc. unfold convert, expand. rewrite Hls.
+  intros e Hls HU HT Hok Hq Hc. unfold convert, expand. rewrite Hls.
   destruct (default_filters e _) as [fl|]; [|reflexivity].
-  destruct (nodup_bytes _); [|reflexivity]. now rewrite (expand_closed e fl (HU fl)), Hok, Hq, Hc.
+  destruct (nodup_bytes _); [|reflexivity]. now rewrite (expand_closed e fl (HU fl)), (HT fl), Hok, Hq, Hc.
 Qed.
 
 (* the only conversion errors the expansion itself can cause are in the user's own fields: an
    object reference that names nothing, an optional/required clash, a path parameter that is
    not a request field; a reference made by entity.go is never the cause *)
 Theorem compile_errors : forall e cs, expand e = Ok cs -> list_settings e = false ->
-  convert e = if user_refs_ok e (defined cs) then
+  convert e = if user_refs_ok e (defined cs) && trees_ok e (defined cs) then
                 if fields_ok e then
                   if query_params_ok e && command_params_ok e then Ok cs
                   else Err "missing field in request"
@@ -506,7 +514,7 @@ Qed.
 Theorem convert_never_panics : forall e, is_panic (convert e) = false /\ convert e <> OutOfFuel.
 Proof.
   intros e. unfold convert. destruct (expand e) as [cs| | |] eqn:E.
-  - destruct (closed cs); [destruct (fields_ok e); [destruct (query_params_ok e && command_params_ok e);
+  - destruct (closed cs && trees_ok e (defined cs)); [destruct (fields_ok e); [destruct (query_params_ok e && command_params_ok e);
       [destruct (list_settings e)|]|]|]; split; try reflexivity; discriminate.
   - split; [reflexivity|discriminate].
   - pose proof (expand_total_aux e) as [Hp _]. rewrite E in Hp. discriminate.
@@ -517,7 +525,7 @@ Qed.
 Theorem convert_list_settings : forall e, list_settings e = true -> forall cs, convert e <> Ok cs.
 Proof.
   intros e Hls cs. unfold convert. rewrite Hls. destruct (expand e) as [c| | |]; try discriminate.
-  destruct (closed c); [destruct (fields_ok e); [destruct (query_params_ok e && command_params_ok e)|]|]; discriminate.
+  destruct (closed c && trees_ok e (defined c)); [destruct (fields_ok e); [destruct (query_params_ok e && command_params_ok e)|]|]; discriminate.
 Qed.
 
 (* ---- the main file holds exactly Keys, Data, State, EventType, Event -------------- *)
@@ -691,21 +699,21 @@ Theorem keys_in_declaration_order : forall e,
   map f_json (m_fields (keys_msg e)) = map (fun k => uf_name (k_def k)) (e_keys e).
 Proof.
   intros e. unfold keys_msg. cbn [m_fields]. rewrite map_map. apply map_ext.
-  intros [[n [pt k|nm|nm|nm|p f t|tn k|i|i|fs|fs|os] r o] s]; reflexivity.
+  intros [[n [pt k|nm|nm|nm|p f t|tn k|i|i|fs|fs|os|tk tfs] r o] s]; reflexivity.
 Qed.
 
 Theorem primary_keys_required : forall e f,
   In f (m_fields (keys_msg e)) -> f_primary f = true -> f_required f = true.
 Proof.
   intros e f Hf Hp. unfold keys_msg in Hf. cbn [m_fields] in Hf.
-  apply in_map_iff in Hf. destruct Hf as [[[n [pt k|nm|nm|nm|p fk t|tn k|i|i|fs|fs|os] r o] s] [<- _]]; cbn in *; try discriminate.
+  apply in_map_iff in Hf. destruct Hf as [[[n [pt k|nm|nm|nm|p fk t|tn k|i|i|fs|fs|os|tk tfs] r o] s] [<- _]]; cbn in *; try discriminate.
   subst p. apply orb_true_r.
 Qed.
 
 Definition primary_keys (e : entity) : list ufield := filter is_primary (map k_def (e_keys e)).
 
 Lemma primary_is_key : forall u, is_primary u = true -> is_key_field u = true.
-Proof. intros [n [pt k|nm|nm|nm|p f t|tn k|i|i|fs|fs|os] r o] H; try discriminate; reflexivity. Qed.
+Proof. intros [n [pt k|nm|nm|nm|p f t|tn k|i|i|fs|fs|os|tk tfs] r o] H; try discriminate; reflexivity. Qed.
 
 (* the primary keys are, in declaration order, among the Get/Events path keys ... *)
 Theorem get_keys_primary : forall e, filter is_primary (get_keys e) = primary_keys e.
@@ -1146,6 +1154,17 @@ Proof.
     [reflexivity| | | |reflexivity|now apply IH|reflexivity]; destruct p; try assumption; now apply L.
 Qed.
 
+Lemma tfield_resolves_mono : forall D D', incl D D' ->
+  forall t, tfield_resolves D t = true -> tfield_resolves D' t = true.
+Proof.
+  intros D D' Hi. fix IH 1. intros [n k r o d]. destruct k as [i|i|i|k c fs os]; cbn [tfield_resolves]; intros H.
+  - exact (ref_resolves_mono D D' _ Hi H).
+  - exact (ref_resolves_mono D D' _ Hi H).
+  - exact (ref_resolves_mono D D' _ Hi H).
+  - revert fs H. fix IHl 1. intros [|x rest] H; [reflexivity|]. cbn [forallb] in *.
+    apply andb_true_iff in H. destruct H as [Hx Hr]. rewrite (IH x Hx). exact (IHl rest Hr).
+Qed.
+
 Lemma field_resolves_mono : forall D D' f,
   incl D D' -> field_resolves D f = true -> field_resolves D' f = true.
 Proof.
@@ -1167,7 +1186,7 @@ Qed.
 Lemma compile_ok_inv : forall e cs, convert e = Ok cs -> expand e = Ok cs /\ closed cs = true.
 Proof.
   intros e cs H. unfold convert in H. destruct (expand e) as [c| | |] eqn:E; try discriminate.
-  destruct (closed c) eqn:Ec; [|discriminate]. destruct (fields_ok e); [|discriminate].
+  destruct (closed c) eqn:Ec; [|discriminate]. cbn [andb] in H. destruct (trees_ok e (defined c)); [|discriminate]. destruct (fields_ok e); [|discriminate].
   destruct (query_params_ok e && command_params_ok e); [|discriminate].
   destruct (list_settings e); [discriminate|]. inversion H; subst. auto.
 Qed.
